@@ -139,7 +139,11 @@ Definition chk_C02 (c : cfg) (base : Z) (tr : list ev) : option clause :=
 Fixpoint chk_pt (c : cfg) (seen : list row) (emitted : list Z) (last : option Z) (tr : list ev) : option clause :=
   match tr with
   | [] => None
-  | EvAdd id ts :: r => chk_pt c (seen ++ [(id, ts)]) emitted last r
+  | EvAdd id ts :: r =>
+      (* a row whose clock reading lies in an interval that has already been reported (or an earlier one) can
+         never be reported in it: reading the clock and inserting the row are one atomic step w.r.t. a firing *)
+      if match last with Some l => ts <? l + size c | None => false end then Some ClOnTimeLost
+      else chk_pt c (seen ++ [(id, ts)]) emitted last r
   | EvBatch b :: r =>
       if negb ((b_end b =? b_start b + size c) && (b_start b mod size c =? 0)
                && forallb (fun x => inwin c (b_start b) (rts x)) (b_rows b)) then Some ClMembership
